@@ -44,6 +44,9 @@ pub enum LeaderStrategy {
     Equivocate,
     /// two blocks per slot, shreds of both sent to everyone (equivocation detectable)
     EquivocateMixed,
+    /// validly signed but malformed blocks (C10): parent in the future, first slice without parent,
+    /// undecodable transactions, contradictory last flags, parent switched twice / to itself, ...
+    Malformed,
 }
 
 #[derive(Clone, Debug)]
@@ -72,8 +75,11 @@ pub fn draw_byz_cfg(_p: &Profile, byz_nodes: &[usize], n: usize) -> ByzCfg {
     }
     let voter = [VoterStrategy::Silent, VoterStrategy::Promiscuous, VoterStrategy::Split, VoterStrategy::Promiscuous, VoterStrategy::Late]
         [kernel::choose(CFG, 5) as usize];
-    let leader = [LeaderStrategy::Silent, LeaderStrategy::Equivocate, LeaderStrategy::Single, LeaderStrategy::EquivocateMixed, LeaderStrategy::Equivocate]
-        [kernel::choose(CFG, 5) as usize];
+    let leader = if _p.hostile && kernel::choose(CFG, 2) == 1 {
+        LeaderStrategy::Malformed
+    } else {
+        [LeaderStrategy::Silent, LeaderStrategy::Equivocate, LeaderStrategy::Single, LeaderStrategy::EquivocateMixed, LeaderStrategy::Equivocate][kernel::choose(CFG, 5) as usize]
+    };
     let mut side = vec![0u8; n];
     let mut k = kernel::choose(CFG, 2) as u8;
     for s in side.iter_mut() {
@@ -112,6 +118,10 @@ struct Adv {
     /// own chains: window -> (chain A tip, chain B tip)
     late_queue: Vec<(u64, usize, Vec<u8>, Vec<usize>)>,
     injected: BTreeSet<Vec<u8>>,
+}
+
+fn all_targets_of(cfg: &ClusterCfg) -> Vec<usize> {
+    (0..cfg.n).filter(|i| cfg.roles[*i] == Role::Correct).collect()
 }
 
 fn vote_bytes(v: Vote) -> Vec<u8> {
@@ -341,6 +351,47 @@ impl Adv {
                         e.push(b.hash.clone());
                         tip_a = (slot, a.hash.clone());
                         tip_b = (slot, b.hash.clone());
+                    }
+                    LeaderStrategy::Malformed => {
+                        use crate::dissem::Malform;
+                        let m = [
+                            Malform::ParentNotEarlier, Malform::FirstWithoutParent, Malform::UndecodableTxs, Malform::ContradictoryLast,
+                            Malform::ParentSwitchedTwice, Malform::ParentSwitchedToSelf, Malform::SliceAfterLast, Malform::ConflictingSlice, Malform::None,
+                        ][kernel::choose(ADV, 9) as usize]
+                            .clone();
+                        let mut slices = crate::dissem::draw_block(slot.inner(), 3, &m);
+                        // keep a plausible parent unless the malformation is about the parent
+                        if !matches!(m, Malform::ParentNotEarlier | Malform::FirstWithoutParent) {
+                            slices[0].parent = Some(tip_a.clone());
+                        }
+                        let mut shredder = alpenglow::shredder::RegularShredder::default();
+                        use alpenglow::shredder::Shredder;
+                        let mut all: Vec<alpenglow::shredder::ValidatedShred> = Vec::new();
+                        for sl in &slices {
+                            if let Ok(sh) = shredder.shred(sl, &kp.sk) {
+                                all.extend(sh.to_vec());
+                            }
+                        }
+                        if matches!(m, Malform::ContradictoryLast | Malform::ConflictingSlice) {
+                            let mut s2 = slices[0].clone();
+                            if m == Malform::ContradictoryLast {
+                                s2.is_last = !s2.is_last;
+                            } else {
+                                s2.data = crate::wire::txs_payload(&[alpenglow::Transaction(vec![1, 2, 3])]);
+                            }
+                            if let Ok(sh) = shredder.shred(&s2, &kp.sk) {
+                                all.extend(sh.to_vec());
+                            }
+                        }
+                        kernel::fault("byzantine_leader_malformed_block");
+                        kernel::event(&format!("byz leader {leader} malformed {m:?} slot {}", slot.inner()));
+                        let mut net = self.net.lock().unwrap();
+                        for s in &all {
+                            let bytes = wire::shred_bytes(s.as_shred());
+                            for t in &all_targets_of(&self.cfg) {
+                                net.inject(port_of(leader, Iface::Dissem), port_of(*t, Iface::Dissem), bytes.clone(), None);
+                            }
+                        }
                     }
                     LeaderStrategy::Silent => {}
                 }
